@@ -1,6 +1,6 @@
 (* JsonProofs.v — lemmas and theorems about the JSON-CAS models (JsonDoc.v, Json.v). *)
 From Coq Require Import Ascii ZifyBool.
-From Cassis Require Import Base Heap Schema Canon Reach ReachProofs JsonDoc Json.
+From Cassis Require Import Base Heap Schema Canon Reach ReachProofs ReachSpec JsonDoc Json.
 From Cassis Require Offsets OffsetsProofs.
 Open Scope Z_scope.
 
@@ -1096,11 +1096,18 @@ Proof.
   intros [= <-]. split; reflexivity.
 Qed.
 
+(* the id under which the byte array of a view's sofa is written *)
+Definition arr_ids (c : cas) (v : cview) : list Z :=
+  match s_arr (v_sofa v) with
+  | Some o => match hget (c_heap c) o with Some f => match o_id f with Some i => [i] | None => [] end | None => [] end
+  | None => [] end.
+
 Lemma view_part L s c v out :
   lex_ok L -> view_out L s c v = Ok out ->
   (match s_text (v_sofa v) with Some t => text_okb t = true | None => True end) ->
   (forall o, s_arr (v_sofa v) = Some o -> exists f i, hget (c_heap c) o = Some f /\ obj_okb s c f = true /\ o_id f = Some i) ->
-  exists E ids cs,
+  exists (E : list entry) ids cs,
+    map fst E = arr_ids c v ++ [s_xid (v_sofa v)] /\
     fst out = map entry_json E /\ Forall id_first E /\ snd out = vjson v ids /\
     canon_sofa c v = Ok cs /\ cs_id cs = s_xid (v_sofa v) /\ cs_text cs = s_text (v_sofa v) /\
     (forall VJ, alookup (s_name (v_sofa v)) VJ = Some (snd (vjson v ids)) ->
@@ -1134,6 +1141,7 @@ Proof.
     destruct (enc_fs L s c f) as [m| |] eqn:Em; cbn [bind] in Ea; try discriminate. inversion Ea; subst arrs.
     destruct (written_object L s c o f i m HL Hg Hi Hok Em) as (Hid & Hns & Hden).
     exists [(i, m); (s_xid (v_sofa v), ms)], ids, cs.
+    split; [unfold arr_ids; rewrite Eo, Hg, Hi; reflexivity|].
     split; [reflexivity|]. split; [repeat constructor; assumption|]. split; [reflexivity|]. split; [exact Hcanon|].
     split; [reflexivity|]. split; [reflexivity|]. split.
     + intros VJ HVJ. cbn [filter]. rewrite Hns, Hss. cbn [mapM]. destruct (Hcs VJ HVJ) as (arr' & Ha' & Hd').
@@ -1141,6 +1149,7 @@ Proof.
     + intros stab Hst. destruct (Hden stab Hst) as (r & Hd & Hc). exists [r]. unfold not_sofa. cbn [filter]. rewrite Hns, Hss. cbn [negb mapM].
       rewrite Hd, Hc. split; reflexivity.
   - inversion Ea; subst arrs. exists [(s_xid (v_sofa v), ms)], ids, cs.
+    split; [unfold arr_ids; rewrite Eo; reflexivity|].
     split; [reflexivity|]. split; [repeat constructor; assumption|]. split; [reflexivity|]. split; [exact Hcanon|].
     split; [reflexivity|]. split; [reflexivity|]. split.
     + intros VJ HVJ. cbn [filter]. rewrite Hss. cbn [mapM]. destruct (Hcs VJ HVJ) as (arr' & Ha' & Hd').
@@ -1153,9 +1162,10 @@ Definition view_okP (s : schema) (c : cas) (v : cview) : Prop :=
   (forall o, s_arr (v_sofa v) = Some o -> exists f i, hget (c_heap c) o = Some f /\ obj_okb s c f = true /\ o_id f = Some i).
 Definition arr_of (v : cview) : list oid := match s_arr (v_sofa v) with Some o => [o] | None => [] end.
 
-Lemma views_part L s c : lex_ok L -> forall vs outs, mapM (view_out L s c) vs = Ok outs ->
-  (forall v, In v vs -> view_okP s c v) ->
-  exists E sofas,
+(* what the views loop wrote, as entries: ids, shape, and what the entries denote *)
+Definition views_facts (L : lex) (s : schema) (c : cas) (vs : list cview) (outs : list (list json * (string * json)))
+                       (E : list entry) (sofas : list csofa) : Prop :=
+    map fst E = flat_map (fun v => arr_ids c v ++ [s_xid (v_sofa v)]) vs /\
     List.concat (map fst outs) = map entry_json E /\ Forall id_first E /\
     mapM (canon_sofa c) vs = Ok sofas /\
     map (fun cs => (cs_id cs, cs_text cs)) sofas = map (fun v => (s_xid (v_sofa v), s_text (v_sofa v))) vs /\
@@ -1164,15 +1174,21 @@ Lemma views_part L s c : lex_ok L -> forall vs outs, mapM (view_out L s c) vs = 
        mapM (den_sofa L VJ) (filter is_sofa_entry E) = Ok sofas) /\
     (forall stab, stab_ok c stab ->
        exists rs, mapM (den_fs L s stab) (filter not_sofa E) = Ok rs /\ mapM (canon_item s c) (flat_map arr_of vs) = Ok rs).
+
+Lemma views_part L s c : lex_ok L -> forall vs outs, mapM (view_out L s c) vs = Ok outs ->
+  (forall v, In v vs -> view_okP s c v) ->
+  exists (E : list entry) sofas, views_facts L s c vs outs E sofas.
 Proof.
+  unfold views_facts.
   intros HL. induction vs as [|v r IH]; intros outs Hm Hok.
   - cbn [mapM] in Hm. inversion Hm; subst outs. exists [], []. cbn. repeat split; auto. intros stab _. exists []. split; reflexivity.
   - cbn [mapM] in Hm. destruct (view_out L s c v) as [out| |] eqn:Eo; cbn [bind] in Hm; try discriminate.
     destruct (mapM (view_out L s c) r) as [outs'| |] eqn:Er; cbn [bind] in Hm; try discriminate. inversion Hm; subst outs. clear Hm.
     destruct (Hok v (or_introl eq_refl)) as [Htx Harr].
-    destruct (view_part L s c v out HL Eo Htx Harr) as (E1 & ids & cs & A1 & A2 & A3 & A4 & A5 & A6 & A7 & A8).
-    destruct (IH outs' eq_refl (fun x Hx => Hok x (or_intror Hx))) as (E2 & sofas & B1 & B2 & B3 & B4 & B5 & B6 & B7).
+    destruct (view_part L s c v out HL Eo Htx Harr) as (E1 & ids & cs & A0 & A1 & A2 & A3 & A4 & A5 & A6 & A7 & A8).
+    destruct (IH outs' eq_refl (fun x Hx => Hok x (or_intror Hx))) as (E2 & sofas & B0 & B1 & B2 & B3 & B4 & B5 & B6 & B7).
     exists (E1 ++ E2), (cs :: sofas). cbn [map List.concat mapM flat_map].
+    split; [rewrite map_app; f_equal; [exact A0|exact B0]|].
     split; [rewrite A1, B1, map_app; reflexivity|]. split; [apply Forall_app; split; assumption|].
     split; [rewrite A4, B3; reflexivity|]. split; [cbn [map]; rewrite A5, A6, B4; reflexivity|].
     split; [rewrite A3, B5; reflexivity|]. split.
@@ -1187,22 +1203,26 @@ Qed.
 Definition found_okP (s : schema) (c : cas) (io : xid * oid) : Prop :=
   exists f, hget (c_heap c) (snd io) = Some f /\ obj_okb s c f = true /\ o_id f = Some (fst io).
 
+Definition found_facts (L : lex) (s : schema) (c : cas) (found : list (xid * oid)) (fss : list json) (E : list entry) : Prop :=
+    map fst E = map fst found /\ fss = map entry_json E /\ Forall id_first E /\ filter is_sofa_entry E = [] /\ filter not_sofa E = E /\
+    forall stab, stab_ok c stab ->
+      exists rs, mapM (den_fs L s stab) E = Ok rs /\ mapM (canon_item s c) (map snd found) = Ok rs.
 Lemma found_part L s c : lex_ok L -> forall found fss,
   mapM (fun io => do f <- fs_at c io ;; do m <- enc_fs L s c f ;; Ok (JObj m)) found = Ok fss ->
   (forall io, In io found -> found_okP s c io) ->
-  exists E, fss = map entry_json E /\ Forall id_first E /\ filter is_sofa_entry E = [] /\ filter not_sofa E = E /\
-    forall stab, stab_ok c stab ->
-      exists rs, mapM (den_fs L s stab) E = Ok rs /\ mapM (canon_item s c) (map snd found) = Ok rs.
+  exists E : list entry, found_facts L s c found fss E.
 Proof.
+  unfold found_facts.
   intros HL. induction found as [|io r IH]; intros fss Hm Hok.
   - cbn [mapM] in Hm. inversion Hm. exists []. repeat split; auto. intros stab _. exists []. split; reflexivity.
   - cbn [mapM] in Hm. destruct (Hok io (or_introl eq_refl)) as (f & Hg & Hobj & Hi).
     unfold fs_at in Hm at 1. rewrite Hg in Hm. cbn [bind] in Hm.
     destruct (enc_fs L s c f) as [m| |] eqn:Em; cbn [bind] in Hm; try discriminate.
     destruct (mapM _ r) as [fss'| |] eqn:Er in Hm; cbn [bind] in Hm; try discriminate. inversion Hm; subst fss. clear Hm.
-    destruct (IH fss' Er (fun x Hx => Hok x (or_intror Hx))) as (E & B1 & B2 & B3 & B4 & B5).
+    destruct (IH fss' Er (fun x Hx => Hok x (or_intror Hx))) as (E & B0 & B1 & B2 & B3 & B4 & B5).
     destruct (written_object L s c (snd io) f (fst io) m HL Hg Hi Hobj Em) as (Hid & Hns & Hden).
     exists ((fst io, m) :: E). cbn [map filter]. unfold not_sofa at 1. rewrite Hns. cbn [negb].
+    split; [cbn [fst]; f_equal; exact B0|].
     split; [rewrite B1; reflexivity|]. split; [constructor; assumption|]. split; [exact B3|]. split; [rewrite B4; reflexivity|].
     intros stab Hst. destruct (Hden stab Hst) as (r0 & D1 & D2). destruct (B5 stab Hst) as (rs & F1 & F2).
     exists (r0 :: rs). cbn [mapM]. rewrite D1, D2, F1, F2. split; reflexivity.
@@ -1253,14 +1273,71 @@ Qed.
 Lemma opt_eqb_some a i : opt_eqb Z.eqb a (Some i) = true -> a = Some i.
 Proof. destruct a as [x|]; cbn [opt_eqb]; [|discriminate]. intros H. apply Z.eqb_eq in H. congruence. Qed.
 
+(* the views loop only advances the id generator *)
+Lemma step_view_next L s c fss views v c1 fss1 views1 :
+  step_view L s (Ok (c, fss, views)) v = Ok (c1, fss1, views1) -> c_next_id c <= c_next_id c1.
+Proof.
+  unfold step_view. cbn [bind].
+  destruct (enc_view (c_heap c) v) as [jv| |]; cbn [bind]; try discriminate.
+  destruct (s_arr (v_sofa v)) as [o|].
+  - destruct (hget (c_heap c) o) as [f|]; cbn [bind]; [|discriminate].
+    destruct (o_id f).
+    + destruct (enc_fs L s c f); cbn [bind]; try discriminate. destruct (enc_sofa L c (v_sofa v)); cbn [bind]; try discriminate.
+      intros [= <- _ _]. lia.
+    + destruct (enc_fs L s _ _); cbn [bind]; try discriminate. destruct (enc_sofa L _ (v_sofa v)); cbn [bind]; try discriminate.
+      intros [= <- _ _]. cbn [c_next_id]. lia.
+  - cbn [bind]. destruct (enc_sofa L c (v_sofa v)); cbn [bind]; try discriminate. intros [= <- _ _]. lia.
+Qed.
+Lemma loop_next L s : forall vs c fss views cN fssN viewsN,
+  fold_left (step_view L s) vs (Ok (c, fss, views)) = Ok (cN, fssN, viewsN) -> c_next_id c <= c_next_id cN.
+Proof.
+  induction vs as [|v r IH]; intros c fss views cN fssN viewsN H.
+  - cbn [fold_left] in H. inversion H. lia.
+  - cbn [fold_left] in H. destruct (step_view L s (Ok (c, fss, views)) v) as [[[c1 fss1] views1]|e|] eqn:E1.
+    + pose proof (step_view_next _ _ _ _ _ _ _ _ _ E1). pose proof (IH _ _ _ _ _ _ H). lia.
+    + rewrite fold_step_err in H. discriminate.
+    + rewrite fold_step_oof in H. discriminate.
+Qed.
+(* what save_found returns, and the discharge of the former premise `stableb`: the traversal repeated on the CAS it
+   leaves behind returns the same state *)
+Lemma save_found_stable L s c c1 sofa_fs views w : 0 < c_next_id c -> save_found L s c = Ok (c1, sofa_fs, views, w) ->
+  fold_left (step_view L s) (c_views c) (Ok (c, [], [])) = Ok (c1, sofa_fs, views) /\
+  find_all_fs true s c1 = Ok w /\ find_all_fs true s (cas_after c1 w) = Ok w.
+Proof.
+  intros Hpos Esf. unfold save_found in Esf.
+  destruct (fold_left (step_view L s) (c_views c) (Ok (c, [], []))) as [[[c1' sfs] vws]| |] eqn:Efold; cbn [bind] in Esf; try discriminate.
+  destruct (find_all_fs true s c1') as [w0| |] eqn:Ew; cbn [bind] in Esf; try discriminate. inversion Esf; subst c1' sfs vws w0.
+  split; [reflexivity|]. split; [exact Ew|]. apply find_all_fs_stable; [|exact Ew].
+  pose proof (loop_next _ _ _ _ _ _ _ _ _ Efold). lia.
+Qed.
+Theorem stableb_holds L s c : 0 < c_next_id c -> (exists r, save_found L s c = Ok r) -> stableb L s c = true.
+Proof.
+  intros Hpos ([[[c1 sfs] vws] w] & Esf). unfold stableb. rewrite Esf.
+  destruct (save_found_stable L s c c1 sfs vws w Hpos Esf) as (_ & _ & ->).
+  generalize (sort_ids (w_all w)). induction l as [|[i o] r IH]; [reflexivity|]. cbn [list_eqb]. unfold pair_eqb at 1. cbn [fst snd].
+  rewrite Z.eqb_refl, N.eqb_refl. exact IH.
+Qed.
+
 (* C02/C04: read with the declarative semantics of the format, the document the writer produces describes exactly the
    canonical content of the CAS it leaves behind — sofa data, view membership, every structure under its id, every
    value, references as ids (so shared structures are shared), offsets in code points. *)
-Theorem denote_save_json L s mode c d c2 :
-  lex_ok L -> save_json L s mode c = Ok (d, c2) -> wf_jsonb s c2 = true -> stableb L s c = true ->
-  denote_json L s d = canon_json s c2.
+(* everything the proof of the document theorems needs to know about a successful save, in one place *)
+Definition arrs_okP (s : schema) (c2 : cas) (vs : list cview) : Prop :=
+  forall v o, In v vs -> s_arr (v_sofa v) = Some o ->
+    exists f i, hget (c_heap c2) o = Some f /\ (String.eqb (o_type f) T_BYTE_ARRAY = true /\ obj_okb s c2 f = true) /\ o_id f = Some i.
+Lemma save_json_parts L s mode c d c2 :
+  lex_ok L -> save_json L s mode c = Ok (d, c2) -> wf_jsonb s c2 = true -> 0 < c_next_id c ->
+  exists w types outs fss (Ev Ef : list entry) sofas,
+    find_all_fs true s c2 = Ok w /\ w_heap w = c_heap c2 /\ c_views c2 = c_views c /\
+    (types = [] \/ exists j, types = [(K_TYPES, j)]) /\
+    d = JObj (types ++ [(K_FS, JArr (List.concat (map fst outs) ++ fss)); (K_VIEWS, JObj (map snd outs))]) /\
+    mapM (view_out L s c2) (c_views c) = Ok outs /\
+    mapM (fun io => do f <- fs_at c2 io ;; do m <- enc_fs L s c2 f ;; Ok (JObj m)) (sort_ids (w_all w)) = Ok fss /\
+    views_facts L s c2 (c_views c) outs Ev sofas /\ found_facts L s c2 (sort_ids (w_all w)) fss Ef /\
+    (forall io, In io (w_all w) -> found_okP s c2 io) /\ arrs_okP s c2 (c_views c) /\
+    snodup (map s_name (map v_sofa (c_views c2))) = true /\ znodup (map s_xid (map v_sofa (c_views c2))) = true.
 Proof.
-  intros HL Hsave Hwf Hstab.
+  intros HL Hsave Hwf Hpos.
   unfold save_json in Hsave.
   destruct (save_found L s c) as [[[[c1 sofa_fs] views] w]| |] eqn:Esf; cbn [bind] in Hsave; try discriminate.
   destruct (mapM (fun io => do f <- fs_at (cas_after c1 w) io ;; do m <- enc_fs L s (cas_after c1 w) f ;; Ok (JObj m)) (sort_ids (w_all w)))
@@ -1269,15 +1346,13 @@ Proof.
     cbn [bind] in Hsave; try discriminate.
   destruct (ser_types s mode used) as [types| |] eqn:Ety; cbn [bind] in Hsave; try discriminate.
   inversion Hsave; subst d c2. clear Hsave.
+  (* the loop and the traversal; a second traversal of the CAS the save leaves behind finds the same structures under
+     the same ids (ReachSpec.find_all_fs_stable) *)
+  destruct (save_found_stable L s c c1 sofa_fs views w Hpos Esf) as (Efold & Ew & Ew').
+  pose (w' := w).
   (* the premises *)
-  unfold stableb in Hstab. rewrite Esf in Hstab.
-  destruct (find_all_fs true s (cas_after c1 w)) as [w'| |] eqn:Ew'; try discriminate. apply list_eqb_pair in Hstab.
   unfold wf_jsonb in Hwf. rewrite Ew' in Hwf. rewrite !andb_true_iff in Hwf. destruct Hwf as ((((Hn & Hi) & Ht) & Hf) & Ha).
   rewrite forallb_forall in Ht, Hf, Ha.
-  (* the loop and the traversal *)
-  unfold save_found in Esf.
-  destruct (fold_left (step_view L s) (c_views c) (Ok (c, [], []))) as [[[c1' sfs] vws]| |] eqn:Efold; cbn [bind] in Esf; try discriminate.
-  destruct (find_all_fs true s c1') as [w0| |] eqn:Ew; cbn [bind] in Esf; try discriminate. inversion Esf; subst c1' sfs vws w0. clear Esf.
   destruct (loop_spec L s _ _ _ _ _ _ _ Efold) as [X1 Hloop].
   pose proof (find_all_ext s c1 w Ew) as X2.
   set (c2 := cas_after c1 w) in *.
@@ -1292,21 +1367,37 @@ Proof.
   { intros v o f Hv Ho Hg. destruct (Harrs v o Hv Ho) as (f' & i & G & [T _] & _). rewrite Hg in G. inversion G; subst f'.
     apply String.eqb_eq in T. exact T. }
   cbn [app] in Hsfs, Hvws. subst sofa_fs views.
-  destruct (views_part L s c2 HL (c_views c) outs Houts) as (Ev & sofas & V1 & V2 & V3 & V4 & V5 & V6 & V7).
+  destruct (views_part L s c2 HL (c_views c) outs Houts) as (Ev & sofas & HV).
   { intros v Hv. split.
     - assert (Hs : In (v_sofa v) (map v_sofa (c_views c2))) by (rewrite Hviews; apply in_map; exact Hv). pose proof (Ht _ Hs) as Hq. destruct (s_text (v_sofa v)); [exact Hq|exact I].
     - intros o Ho. destruct (Harrs v o Hv Ho) as (f & i & G & [_ K] & I). exists f, i. auto. }
-  destruct (found_part L s c2 HL (sort_ids (w_all w)) fss Efss) as (Ef & F1 & F2 & F3 & F4 & F5).
-  { intros io Hio0. assert (Hio : In io (sort_ids (w_all w'))) by (rewrite Hstab; exact Hio0). apply (proj1 (sort_ids_In _ _)) in Hio. specialize (Hf io Hio).
+  assert (Hfound : forall io, In io (w_all w) -> found_okP s c2 io).
+  { intros io Hio. specialize (Hf io Hio).
     destruct (hget (c_heap c2) (@snd Z oid io)) as [f|] eqn:G; [|discriminate Hf]. apply andb_true_iff in Hf. destruct Hf as [A B].
     exists f. split; [exact G|]. split; [exact A|apply opt_eqb_some; exact B]. }
+  destruct (found_part L s c2 HL (sort_ids (w_all w)) fss Efss) as (Ef & HF).
+  { intros io Hio. apply Hfound. apply (proj1 (sort_ids_In _ _)). exact Hio. }
+  exists w, types, outs, fss, Ev, Ef, sofas.
+  split; [exact Ew'|]. split; [reflexivity|]. split; [exact Hviews|]. split; [exact (ser_types_shape _ _ _ _ Ety)|].
+  split; [reflexivity|]. split; [exact Houts|]. split; [exact Efss|]. split; [exact HV|]. split; [exact HF|].
+  split; [exact Hfound|]. split; [exact Harrs|]. split; [exact Hn|exact Hi].
+Qed.
+
+Theorem denote_save_json L s mode c d c2 :
+  lex_ok L -> save_json L s mode c = Ok (d, c2) -> wf_jsonb s c2 = true -> 0 < c_next_id c ->
+  denote_json L s d = canon_json s c2.
+Proof.
+  intros HL Hsave Hwf Hpos.
+  destruct (save_json_parts L s mode c d c2 HL Hsave Hwf Hpos)
+    as (w & types & outs & fss & Ev & Ef & sofas & Ew' & Hheap & Hviews & Hty & -> & Houts & Efss & HV & HF & Hfound & Harrs & Hn & Hi).
+  destruct HV as (V0 & V1 & V2 & V3 & V4 & V5 & V6 & V7). destruct HF as (F0 & F1 & F2 & F3 & F4 & F5).
   (* the document *)
   assert (Hfs : jget K_FS (JObj (types ++ [(K_FS, JArr (List.concat (map fst outs) ++ fss)); (K_VIEWS, JObj (map snd outs))]))
                 = Some (JArr (map entry_json (Ev ++ Ef)))).
-  { rewrite map_app, <- V1, <- F1. destruct (ser_types_shape _ _ _ _ Ety) as [->|(j & ->)]; reflexivity. }
+  { rewrite map_app, <- V1, <- F1. destruct Hty as [->|(j & ->)]; reflexivity. }
   assert (Hvj : doc_views (JObj (types ++ [(K_FS, JArr (List.concat (map fst outs) ++ fss)); (K_VIEWS, JObj (map snd outs))]))
                 = Ok (map snd outs)).
-  { destruct (ser_types_shape _ _ _ _ Ety) as [->|(j & ->)]; reflexivity. }
+  { destruct Hty as [->|(j & ->)]; reflexivity. }
   unfold denote_json, fs_entries. rewrite Hfs, (entries_written (Ev ++ Ef) (proj2 (Forall_app _ _ _) (conj V2 F2))). cbn [bind].
   rewrite Hvj. cbn [bind].
   (* sofas *)
@@ -1332,7 +1423,7 @@ Proof.
   change (fun e : entry => negb (is_sofa_entry e)) with not_sofa.
   rewrite filter_app, F4, mapM_app, R1, R3. cbn [bind].
   (* the canonical side *)
-  unfold canon_json. rewrite Ew'. cbn [bind]. rewrite Hstab. unfold canon_of.
+  unfold canon_json. rewrite Ew'. cbn [bind]. unfold canon_of.
   change (fun o : oid => match hget (c_heap c2) o with
                          | Some f => match o_id f with Some i => do cf <- canon_fs s c2 f ;; Ok (i, cf) | None => Err EValue end
                          | None => Err EAttribute end) with (canon_item s c2).
@@ -1367,8 +1458,8 @@ Qed.
    save and the loaded one after its save) have the same denotation *)
 Theorem json_resave_same_denotation L s m1 m2 c1 d1 c1' c2 d2 c2' :
   lex_ok L ->
-  save_json L s m1 c1 = Ok (d1, c1') -> wf_jsonb s c1' = true -> stableb L s c1 = true ->
-  save_json L s m2 c2 = Ok (d2, c2') -> wf_jsonb s c2' = true -> stableb L s c2 = true ->
+  save_json L s m1 c1 = Ok (d1, c1') -> wf_jsonb s c1' = true -> 0 < c_next_id c1 ->
+  save_json L s m2 c2 = Ok (d2, c2') -> wf_jsonb s c2' = true -> 0 < c_next_id c2 ->
   canon_json s c1' = canon_json s c2' -> denote_json L s d1 = denote_json L s d2.
 Proof.
   intros HL S1 W1 T1 S2 W2 T2 E.
@@ -1377,7 +1468,7 @@ Qed.
 
 (* round trip through the reader model, for documents on which the reader agrees with the denotation *)
 Theorem json_roundtrip_given_reader L s mode c d c' :
-  lex_ok L -> save_json L s mode c = Ok (d, c') -> wf_jsonb s c' = true -> stableb L s c = true ->
+  lex_ok L -> save_json L s mode c = Ok (d, c') -> wf_jsonb s c' = true -> 0 < c_next_id c ->
   load_json L s d = denote_json L s d -> load_json L s d = canon_json s c'.
 Proof. intros HL S W T E. rewrite E. exact (denote_save_json L s mode c d c' HL S W T). Qed.
 
